@@ -435,3 +435,25 @@ M('c12-unused-import-ok', 'C12', [(PA, "    if not rename_count:\n      raise Pa
 M('c12-override-accepted', 'C12', [(PA, "      if any(p[0] != '@' for p in defined_predicates & new_predicates):\n        raise ParsingException(", "      if any(p[0] != '@' for p in defined_predicates & new_predicates):\n        print(")], 'C12-R4')
 T('c12-twin-guard-form', 'C12', [(PA, "      assert idx >= -len(parts), (", "      assert -idx <= len(parts), (")])
 T('c12-twin-positive-index', 'C12', [(PA, "    idx = -1\n    this_file_prefix = parts[idx].capitalize() + '_'", "    idx = -1\n    unused_marker = 0\n    this_file_prefix = parts[idx].capitalize() + '_'")])
+
+# ---------------------------------------------------------------- C17
+M('c17-empty-drop', 'C17', [(U, """      maybe_drop_table = (
+          'DROP TABLE IF EXISTS %s%s;\\n' % (
+              ground.table_name,
+              self.execution.dialect.MaybeCascadingDeletionWord())
+          if ground.overwrite else '')""", """      maybe_drop_table = (
+          'DROP TABLE IF EXISTS %s%s;\\n' % ((
+              ground.table_name if ground.overwrite else '',
+              self.execution.dialect.MaybeCascadingDeletionWord())))""")], 'C17-R2')
+M('c17-no-drop', 'C17', [(U, "        export_statement = maybe_drop_table + create_statement + maybe_copy", "        export_statement = create_statement + maybe_copy")], 'C17-R2')
+M('c17-duckdb-no-replace', 'C17', [(U, "          create_keyword = 'CREATE OR REPLACE TABLE'", "          create_keyword = 'CREATE TABLE'")], 'C17-R2')
+M('c17-clickhouse-no-drop', 'C17', [(U, "        if ground.overwrite:\n          self.AddClickhouseDropAction(table, ground)\n", "")], 'C17-R2')
+M('c17-drop-other-table', 'C17', [(U, "          'DROP TABLE IF EXISTS %s%s;\\n' % (\n              ground.table_name,", "          'DROP TABLE IF EXISTS %s%s;\\n' % (\n              table,")], 'C17-R2')
+M('c17-register-late', 'C17', [(U, "    self.execution.table_to_defined_table_map[table] = table_name\n    define_statement", "    define_statement"), (U, "    self.execution.defines_and_exports.append(define_statement)\n    return table_name", "    self.execution.defines_and_exports.append(define_statement)\n    self.execution.table_to_defined_table_map[table] = table_name\n    return table_name")], 'C17-R1')
+M('c17-export-before-deps', 'C17', [(U, "    export_statement = None\n    if table in self.program.defined_predicates:", "    export_statement = None\n    self.execution.defines_and_exports.append(export_statement)\n    if table in self.program.defined_predicates:")], None)
+M('c17-main-through-table', 'C17', [(U, "    else:\n      sql = self.PredicateSql(name, allocator)\n    self.PerformIterationClosure(allocator)", "    else:\n      sql = self.MakeSubqueryTranslator(allocator).TranslateTable(name, None)\n    self.PerformIterationClosure(allocator)")], 'C17-R3')
+T('c17-twin-fstring', 'C17', [(U, """      create_statement = (
+          '{create_keyword} {name} AS {dependency_sql}'.format(
+              create_keyword=create_keyword,
+              name=ground.table_name,
+              dependency_sql=FormatSql(dependency_sql)))""", """      create_statement = f'{create_keyword} {ground.table_name} AS {FormatSql(dependency_sql)}'""")])
